@@ -166,6 +166,8 @@ def varint_parse_form(ctx, rule):
     M = ctx.model
     fi = M.method("VarInt", "_parse")
     paths = [p for p in paths_of(ctx, fi, "VarInt") if p.returns]
+    if paths and not any(e.kind == "MUT" for p in paths for e in p.events):
+        return _varint_running_shift(ctx, rule, fi, paths)
     ok = bool(paths)
     folded = 0
     for p in paths:
@@ -188,6 +190,46 @@ def varint_parse_form(ctx, rule):
             ok = len(sh) == 1 and len(el) == 1 and sh[0][3] == N.const(7) and sh[0][2][0] == "lv" and sh[0][2][3] == N.const(0) \
                 and el[0][1][0] == "call" and el[0][1][1] == ("free", "reversed") and bool(app) and el[0][1][2] == (app[0]["base"],)
     ctx.ob(rule, fi, ok and folded >= 1, "VarInt._parse collects byte & 0x7f while the high bit is set and folds the groups as num = (num << 7) | group from the last group down, starting at 0", key="varint decode form")
+
+
+def _varint_running_shift(ctx, rule, fi, paths):
+    """The same decoding without a list: num |= (byte & 0x7f) << shift; shift += 7, both from 0, the value returned at the first byte whose high
+    bit is clear.  By induction over the generic continuing iteration num is the sum of group_i << 7i."""
+    what = "VarInt._parse collects byte & 0x7f while the high bit is set and folds the groups as num = (num << 7) | group from the last group down, starting at 0"
+    def shape(t, byte):
+        """(accumulator lv, shift lv) when t is lv_num | ((byte & 127) << lv_shift)"""
+        if t[0] != "bin" or t[1] not in ("|", "+") or len(t) != 4:
+            return None
+        for a, b in ((t[2], t[3]), (t[3], t[2])):
+            if a[0] == "lv" and b[0] == "bin" and b[1] == "<<" and b[3][0] == "lv" and b[2] in (("bin", "&", N.const(127), byte), ("bin", "&", byte, N.const(127))):
+                return a, b[3]
+        return None
+    if len(paths) != 1:
+        ctx.error("%s undecided: VarInt._parse neither collects the groups in a list nor accumulates them with a running shift" % rule)
+        return
+    p = paths[0]
+    rd = [e for e in p.events if e.kind == "READ"]
+    byte = ("call", ("free", "byte2int"), (rd[0]["res"],), ()) if len(rd) == 1 else None
+    sh = shape(p.retval, byte) if byte else None
+    if sh is None:
+        ctx.error("%s undecided: VarInt._parse neither collects the groups in a list nor accumulates them with a running shift" % rule)
+        return
+    num, shift = sh
+    ok = rd[0]["length"] == N.const(1) and num[3] == N.const(0) and shift[3] == N.const(0) and num[2] == shift[2] and bool(rd[0].loops)
+    ok = ok and any(c[0] == "cmp" and c[1] == "==" and c[3] == N.const(0) and c[2] in (("bin", "&", N.const(128), byte), ("bin", "&", byte, N.const(128))) for c in p.guards())
+    steps = [(evs, env_) for lid, evs, env_ in p.loop_steps if lid == num[2]]
+    ok = ok and len(steps) == 1
+    for evs, env_ in steps:
+        r2 = [e for e in evs if e.kind == "READ"]
+        ok = ok and len(r2) == 1 and r2[0]["length"] == N.const(1)
+        if not ok:
+            break
+        b2 = ("call", ("free", "byte2int"), (r2[0]["res"],), ())
+        ok = ok and shape(env_.get(num[1], N.NONE), b2) == (num, shift) and env_.get(shift[1]) == N.mk_add(shift, N.const(7))
+        goes_on = [e["cond"] for e in evs if e.kind == "ASSUME"]
+        stop = [N.mk_cmp("==", x, N.const(0)) for x in (("bin", "&", N.const(128), b2), ("bin", "&", b2, N.const(128)))]
+        ok = ok and any(c in [N.mk_not(s_) for s_ in stop] for c in goes_on)
+    ctx.ob(rule, fi, ok, what, key="varint decode form")
 
 
 def conj(p):
